@@ -131,8 +131,8 @@ def run_cert(kind, tier, seed, C, tz=None):
     return {"cases": len(terms), "nontrivial": distinct, "samples": [d[:600] for d in descr[3:len(descr):max(1, len(descr) // 3)]][:3], "violations": viol, "error": err, "outcomes": hist,
             **({"rejected_at_parse_time": notes} if notes else {}), **({"tz": tz} if tz else {})}
 
-DIR_HEADER = """From Coq Require Import List Arith Bool.
-From Gopki.Model Require Import Dir Plan Run Ops Current DirCaseLib.
+DIR_HEADER = """From Coq Require Import List Arith Bool String.
+From Gopki.Model Require Import Bytes Text Dir Plan Run Ops Cli Current DirCaseLib.
 Import ListNotations.
 Definition cases : list (list hstep * list obsT) := [
 """
@@ -156,7 +156,7 @@ def run_dir(kind, tier, seed, C):
         procs.append((idx, name, subprocess.Popen(["coqc"] + C["COQ_Q"] + [name + ".v"], cwd=C["bdir"], stdout=subprocess.PIPE, stderr=subprocess.PIPE, text=True, env=C["ENV"])))
     err = None; steps = 0; runs = 0
     for t in terms:
-        steps += t.count("U (") + t.count("R (mkStrat"); runs += t.count("R (mkStrat")
+        steps += t.count("U (") + t.count("R (mkStrat") + t.count("C (mkFlags"); runs += t.count("R (mkStrat") + t.count("C (mkFlags")
     for idx, name, pr in procs:
         try: o, e = pr.communicate(timeout=3000)
         except subprocess.TimeoutExpired:
@@ -170,7 +170,8 @@ def run_dir(kind, tier, seed, C):
                  2: "C10: a run with the same flags right after a successful run wrote files or failed",
                  3: "C12: after a successful default run an entity lacks certificate or key material, or a hashed certificate does not chain",
                  4: "C14: a run replaced or dropped an existing key / request, or the new certificate does not carry its public key",
-                 5: "C15: a failed write was reported as a successful run"}
+                 5: "C15: a failed write was reported as a successful run",
+                 6: "C10: an existing certificate file was replaced although the answer at the prompt was not y"}
         found = re.findall(r"\((\d+), \(\[([\d; ]*)\], \[([\d;, ()]*)\]\)\)", body)
         err = count_check(o, len(found), name) or err
         for j, steps_s, rules_s in found:
@@ -300,7 +301,7 @@ def run_stream(st, prop, tier, seed, C):
     if st in PIPE: return run_pipe(PIPE[st], tier, seed, C)
     if st == "hview": return run_hview(st, tier, seed, C)
     if st in ("pkcs8", "pem", "hostile-files"): return run_keys(st, tier, seed, C)
-    if st in ("dirrun", "dirfault"): return run_dir(st, tier, seed, C)
+    if st in ("dirrun", "dirfault", "cli"): return run_dir(st, tier, seed, C)
     if st.startswith("cert-"):
         tz = None
         if "@" in st: st, tz = st.split("@")
